@@ -59,7 +59,9 @@ Params ==
            d \in Diags(n), b \in Biases(n), q1 \in QSeqs(n, 2), q2 \in QSeqs(n, 2)}
   \cup {[cls |-> "Naive", n |-> n, lo |-> lo, up |-> up, d |-> d, b |-> b] :
            lo \in LowerEntries(n), up \in LowerEntries(n), d \in Diags(n), b \in Biases(n)}
-  \cup {[cls |-> "Householder", n |-> n, qs |-> qs] : qs \in UNION {QSeqs(n, k) : k \in 1..(IF Rich THEN 3 ELSE 2)}}
+  \* (in two dimensions also four reflections: more reflections than features, and a product - a rotation -
+  \* that is not symmetric, so P and its transpose differ)
+  \cup {[cls |-> "Householder", n |-> n, qs |-> qs] : qs \in UNION {QSeqs(n, k) : k \in (1..(IF Rich THEN 3 ELSE 2)) \cup (IF n = 2 THEN {4} ELSE {})}}
   \cup {[cls |-> "HouseholderInit", n |-> n, qs |-> InitQ(n, k)] : k \in 1..MaxK}
      : n \in 1..MaxD}
 
